@@ -127,7 +127,16 @@ def run(tier: str) -> int:
         h = [list(x) for x in st["hist"]]
         if len(h) == 5 and useful(h):
             hists.append([tuple(op) for op in h])
-    log(f"[C09] G histories: {n1} of length {b['replay']['MaxOps']} over all operations, {len(hists) - n1} of length 5 for the version guard")
+    n2 = len(hists)
+    # path identity: p1 and p3 have the same file name (a.py, pkg/sub/a.py); moving a file between them after a scan
+    # must not let the scan reuse the entry of the other path (Write, Scan, Taint, Rename, Scan)
+    pi = dict(Paths='{"p1", "p3"}', Contents='{"c1"}', MaxOps=5, Ops='{"Write", "Scan", "Taint", "Rename", "Delete"}', FaultKinds='{"truncated"}')
+    g3 = tlc.run("Workspace", tlc.cfg(pi, spec="Spec", invariants=["TypeOK"]), wd, dump=True, cfgname="Workspace_path.cfg", coverage=False)
+    for st in read_dump(g3.dump):
+        h = [list(x) for x in st["hist"]]
+        if len(h) == 5 and useful(h) and any(op[0] == "Taint" for op in h):
+            hists.append([tuple(op) for op in h])
+    log(f"[C09] G histories: {n1} of length {b['replay']['MaxOps']} over all operations, {n2 - n1} of length 5 for the version guard, {len(hists) - n2} of length 5 for path identity (same file name in two directories)")
     rng = random.Random(seed() * 13 + 9)
     rnd = [random_history(rng, rng.randint(*b["rnd_len"])) for _ in range(b["rnd"])]
     allh = hists + rnd
